@@ -234,14 +234,19 @@ class SymInt:
     def _linop(self, o, sign, swap=False):
         if not _liftable(o):
             return NotImplemented
-        ot = bv(o)
-        a, b = (ot, self.t) if swap else (self.t, ot)
         if sign > 0:
-            ctx().side.append(z3.And(z3.BVAddNoOverflow(a, b, True), z3.BVAddNoUnderflow(a, b)))
             r = _lin_add(self.lin, lin_of(o))
         else:
-            ctx().side.append(z3.And(z3.BVSubNoOverflow(a, b), z3.BVSubNoUnderflow(a, b, True)))
             r = _lin_add(lin_of(o), self.lin, -1) if swap else _lin_add(self.lin, lin_of(o), -1)
+        lo, hi = _interval(r)
+        if lo is None or lo < _MIN or hi > _MAX:
+            # the declared input ranges do not already exclude overflow: record the side obligation
+            ot = bv(o)
+            a, b = (ot, self.t) if swap else (self.t, ot)
+            if sign > 0:
+                ctx().side.append(z3.And(z3.BVAddNoOverflow(a, b, True), z3.BVAddNoUnderflow(a, b)))
+            else:
+                ctx().side.append(z3.And(z3.BVSubNoOverflow(a, b), z3.BVSubNoUnderflow(a, b, True)))
         return from_lin(r)
 
     def __add__(self, o):
@@ -258,16 +263,22 @@ class SymInt:
 
     def __mul__(self, o):
         if type(o) is int and _MIN <= o <= _MAX:
-            ot = z3.BitVecVal(o, W)
-            ctx().side.append(z3.And(z3.BVMulNoOverflow(self.t, ot, True), z3.BVMulNoUnderflow(self.t, ot)))
-            return from_lin(_lin_scale(self.lin, o))
+            r = _lin_scale(self.lin, o)
+            lo, hi = _interval(r)
+            if lo is None or lo < _MIN or hi > _MAX:
+                ot = z3.BitVecVal(o, W)
+                ctx().side.append(z3.And(z3.BVMulNoOverflow(self.t, ot, True), z3.BVMulNoUnderflow(self.t, ot)))
+            return from_lin(r)
         return self._bin(o, lambda a, b: a * b, lambda a, b: z3.And(z3.BVMulNoOverflow(a, b, True), z3.BVMulNoUnderflow(a, b)))
 
     __rmul__ = __mul__
 
     def __neg__(self):
-        ctx().side.append(self.t != z3.BitVecVal(_MIN, W))
-        return from_lin(_lin_scale(self.lin, -1))
+        r = _lin_scale(self.lin, -1)
+        lo, hi = _interval(r)
+        if lo is None or hi > _MAX:
+            ctx().side.append(self.t != z3.BitVecVal(_MIN, W))
+        return from_lin(r)
 
     def __pos__(self):
         return self
@@ -304,7 +315,9 @@ class SymInt:
             ctx().side.append(self.t == z3.BitVecVal(0, W))
             return 0
         r = self.t << k
-        ctx().side.append((r >> k) == self.t)  # arithmetic shift back: no bits lost
+        lo, hi = _interval(self.lin)
+        if lo is None or (lo << k) < _MIN or (hi << k) > _MAX:
+            ctx().side.append((r >> k) == self.t)  # arithmetic shift back: no bits lost
         return SymInt(r)
 
     def __rlshift__(self, o):
@@ -643,7 +656,7 @@ class PathCtx:
         d = {}
         for k, v in self.inputs.items():
             val = m.eval(v, model_completion=True)
-            d[k] = z3.is_true(val) if z3.is_bool(val) else val.as_signed_long()
+            d[k] = z3.is_true(val) if z3.is_bool(val) else (val.as_long() if val.size() < W else val.as_signed_long())
         d.update(self.fixed)
         return d
 
